@@ -45,6 +45,11 @@ CHECKS = {
   note="bounded: depth <=2; meaning compared with x/exp/eval.Eval (conformance is C01); unknown extension names and receiver-less method calls are not expressible in text",
   tech="bounded-exhaustive enumeration of policies and of the whole Unicode scalar range through marshal -> parse -> evaluate / re-marshal, differential oracle",
   ref="DESIGN.md §5 C08"),
+ "C09": dict(
+  text="bounded-exhaustive enumeration: every operator form (all JSON node shapes, extension calls, extension-typed literals, is..in, records with escape-needing keys) over every value of the boundary universe, all depth-2 pairings, every like pattern of <=4 components over {Wildcard, a, *, backslash, non-ASCII}, all scope/annotation/condition heads, every policy set of <=3 policies over ids needing JSON escapes; decode(encode(p)) equals p under exactly the normal form the property allows; text->JSON->text and JSON->text->JSON commute; all encodings authorize identically in 6 environments",
+  note="bounded: depth <=2; normal form = annotations and record-literal entries by key, Value(decimal|ip) == emitted constructor call, nil == empty; unknown extension names rejected by design",
+  tech="bounded-exhaustive enumeration of policy ASTs through both codecs with a canonical-form comparison and a differential authorization oracle",
+  ref="DESIGN.md §5 C09"),
  "C20": dict(
   text="explicit-state BFS over all container operation histories up to the stated depth from 14 initial states, every transition executed on the real PolicySet and compared with a Go-map model and the authorization decision table",
   note="bounded: ids {a, policy1, policy10, policy2}+loaded ids, 5 policy kinds, depth 4 (quick) / 6 (thorough); model = plain Go map",
